@@ -52,6 +52,10 @@ CLAIMED['C12'] = dict(
    text="Coq theorems (props/C12.v, closed) over the skeleton of source.verify REGENERATED on every run: for EVERY parser outcome (tree, SyntaxError, IndentationError, RecursionError/MemoryError) and every branch, verify never raises; unless the file could not be loaded, exactly one syntax-category feedback is attached iff the parser returned no tree; a returned tree is stored with success=True, otherwise the empty tree with success=False; IndentationError is never reported as a plain syntax error. Line = parser line + section offset, blank-source reporting and tree identity are checked by the differential oracle against the live ast.parse on corrupted sources, whole-file and inside a section.",
    note="Trusted: Coq kernel; T4 translator and its contract table in tools/props/c12.py (ast.parse may raise SyntaxError/IndentationError/RecursionError/MemoryError - on CPython 3.12 a NUL byte is a SyntaxError; the feedback constructors do not raise: exercised on every rejected text of the run). The parser itself is an oracle. PARTIAL: the line-number arithmetic inside syntax_error is not modelled in Coq (covered by C17's offset theorem and the differential oracle).",
    technique="Coq proof over regenerated exception-flow skeleton + differential oracle against ast.parse", design="3/C12")
+CLAIMED['C18'] = dict(
+   text="PARTIAL. Proved in Coq (props/C18.v, closed): over the skeleton of Tifa.process_code REGENERATED on every run, for EVERY oracle (the parser and the traversal may raise any Exception subclass incl. RecursionError) process_code returns an analysis, completes iff both stages returned, and marks a failure once with one system_error; for the per-code cache of tifa_analysis, by induction over ANY call sequence: a repeated code returns the same result and attaches nothing, and feedback grows only by first analyses. NOT proved (tested): determinism (every generated program analysed under two PYTHONHASHSEEDs and again on a fresh report later in the same process), 'completes on the introductory subset' (every documented builtin function and str/list/dict/number method, standard-module uses, random mixes), issue lines within the source.",
+   note="Trusted: Coq kernel; T4 translator + contract table in tools/props/c18.py (str() of CPython/pedal exceptions and the system_error constructor do not raise); hand model of the cache in tifa_analysis tied by correspondence on call sequences (object identity, feedback counts after every call).",
+   technique="Coq proof over regenerated exception-flow skeleton + cache state machine by induction; generation-based testing for the unproved parts", design="3/C18")
 REASONS = {}
 DEFAULT_REASON = "check not built yet (work in progress; see DESIGN.md section 6 for the order)"
 
